@@ -1126,3 +1126,11 @@ impl<Backing : AsRef<[u32]> + AsMut<[u32]>> DrawTarget<Backing> {
         writer.write_image_data(&output)
     }
 }
+
+#[cfg(raqote_verif)]
+impl<Backing : AsRef<[u32]> + AsMut<[u32]>> DrawTarget<Backing> {
+    /// Verification hook: is the shared rasterizer free of state left by earlier calls?
+    pub fn verif_rasterizer_idle(&self) -> bool {
+        self.rasterizer.verif_is_idle()
+    }
+}
